@@ -156,7 +156,10 @@ def _filt(f):
         kind = "sub"
     else:
         kind = "named"
-    return (kind, f.identifier)
+    ident = f.identifier
+    if isinstance(ident, str) and type(ident) is not str:
+        ident = ident[:]  # the value of a str-subclass instance
+    return (kind, ident)
 
 
 _FILTER_KIND = {"are_named": "named", "are_sub_modules_of": "sub", "have_name_matching": "regex"}
@@ -257,6 +260,9 @@ def _snapshot_rule_config(rule) -> dict:
         "objs": [_filt(f) for f in (c.modules_to_check_against or [])],
         "anything": bool(c.rule_object_anything),
         "default_matcher": rule._rule_matcher_class is DefaultRuleMatcher,
+        # names that are instances of a str subclass whose format() is not their value (members of a str-mixin Enum):
+        # {formatted text: value}
+        "odd_formats": {format(f.identifier): f.identifier[:] for f in list(c.modules_to_check or []) + list(c.modules_to_check_against or []) if isinstance(f.identifier, str) and format(f.identifier) != f.identifier[:]},
     }
 
 
@@ -301,6 +307,8 @@ def trace_of(obj) -> list:
 
 
 def _plain(a):
+    if isinstance(a, str) and type(a) is not str:
+        return a[:]  # the VALUE of a str-subclass instance (an Enum member formats as 'Class.MEMBER')
     if isinstance(a, (str, int, float, bool, type(None))):
         return a
     if isinstance(a, (list, tuple)):
@@ -410,6 +418,16 @@ def judge_module_rule(ev: Event) -> None:
         if named:
             HUB.violation("C03", "report-names-a-module-that-does-not-exist", f"the report speaks about {named[0]!r}, which is no module of the architecture", {"cfg": cfg, "mods": sorted(mods), "message": ev.message})
             return
+    if "C03" in HUB.judges and ev.outcome == "fail" and cfg.get("odd_formats") and ev.message and any(f'"{t}"' in ev.message for t in cfg["odd_formats"]):
+        # one mechanism, whatever else the report says: the message generator FORMATS the caller's names
+        acc.count("c03_reports_of_rules_with_enum_typed_names")
+        shown = sorted(t for t in cfg["odd_formats"] if f'"{t}"' in ev.message)
+        HUB.violation("C03", "report-shows-format-of-str-subclass-name", f"the report speaks about {shown[0]!r} (the format() of a str-mixin Enum member) instead of the module {cfg['odd_formats'][shown[0]]!r}", {"cfg": {k: v for k, v in cfg.items() if k != "odd_formats"}, "message": ev.message})
+        if "C01" in HUB.judges and ok_domain:
+            res = rrule.decide(mods, imps, cfg)
+            if res is not None and res[0]:
+                HUB.violation("C01", f"verdict:{rrule.shape(cfg)}:false-fail", "assert_applies failed but the documented semantics say holds", {"cfg": {k: v for k, v in cfg.items() if k != "odd_formats"}, "mods": sorted(mods), "imps": sorted(imps), "message": ev.message})
+        return
     # -- universal part of C03: positive lines are real imports touching the subject ---
     if "C03" in HUB.judges and ev.outcome == "fail" and wellformed and names_exist and regex_ok:
         _judge_report_universal(ev, mods, imps)
